@@ -147,7 +147,7 @@ def b64(b):
 def gen_authorization(rng):
     """Returns the header value or None, and the shape label."""
     login, pw = rng.choice(LOGINS), rng.choice(PWS)
-    shape = rng.choice(["missing", "missing", "valid", "valid", "valid", "valid", "latin1", "spaces", "nospace", "nbsp", "lower",
+    shape = rng.choice(["missing"] * 4 + ["valid"] * 14 + ["latin1", "spaces", "nospace", "nbsp", "lower",
                         "other-scheme", "bare", "bare-space", "bad-b64", "bad-padding", "junk-inside", "no-colon",
                         "empty-login", "empty-both", "non-ascii-header", "bad-utf8", "basicx"])
     good = b64(("%s:%s" % (login, pw)).encode("utf-8"))
@@ -265,7 +265,7 @@ def gen_case(rng, rig):
     users = []
     for l in login_seen:
         for c in candidates(l):
-            beh = rng.choice(["echo", "echo", "echo", "echo", "empty", "other", "unsafe", "dotdot", "fsunsafe", "raise", "upper", "tilde"])
+            beh = rng.choice(["echo"] * 8 + ["empty", "empty", "other", "unsafe", "dotdot", "fsunsafe", "raise", "upper", "tilde"])
             res = {"echo": c, "empty": "", "other": "carol", "unsafe": c + "/x", "dotdot": "..", "fsunsafe": "." + c,
                    "raise": plug.RAISE, "upper": c.upper(), "tilde": c + "~"}[beh]
             for pw in dict.fromkeys(pw_seen):
@@ -278,7 +278,7 @@ def gen_case(rng, rig):
                 users.append(c)       # what the built-in back-ends return
     rights_w = [u for u in users if rng.random() < 0.7]
     precreate = [u for u in users if rng.random() < 0.35]
-    handler = rng.choice(["na", "na", "na_copy", "ok", "ok", "ok", "multi", "forbidden", "raise"])
+    handler = rng.choice(["na", "na", "na", "na_copy", "ok", "ok", "ok", "ok", "multi", "multi", "forbidden", "raise"])
     return dict(env=env, shape=shape, decode=decode, upper=upper, lower=lower, script=script, backend=backend, users=users,
                 rights_w=rights_w, precreate=precreate, handler=handler)
 
